@@ -55,8 +55,16 @@ def open_msg(asn: int, hold: int, rid: str, caps: list[bytes], version: int = 4,
     return msg(OPEN, body)
 
 
-def default_caps(asn: int, fams=((1, 1), (2, 1)), addpath=((1, 1, 3), (2, 1, 3)), rr=True, err=False, extmsg=True) -> list[bytes]:
+def cap_hostname(host: str, domain: str) -> bytes:
+    """FQDN capability (code 73): length-prefixed host and domain names, UTF-8"""
+    h, d = host.encode('utf-8'), domain.encode('utf-8')
+    return cap(73, bytes([len(h)]) + h + bytes([len(d)]) + d)
+
+
+def default_caps(asn: int, fams=((1, 1), (2, 1)), addpath=((1, 1, 3), (2, 1, 3)), rr=True, err=False, extmsg=True, hostname=None) -> list[bytes]:
     caps = [cap_mp(a, s) for a, s in fams]
+    if hostname:
+        caps.append(cap_hostname(*hostname))
     caps.append(cap_asn4(asn))
     if rr:
         caps.append(cap_rr())
